@@ -16,8 +16,10 @@ SEEDS: dict[str, dict[str, str]] = {
     "C05": {"C05-1": "R-C05.2", "C05-2": "R-C05.4", "C05-3": "R-C05.1"},
     "C06": {"C06-1": "R-C06.2", "C06-2": "R-C06.2", "C06-3": "R-C06.2", "C06-4": "R-C06.6", "C07-2": "R-C06.4"},
     "C07": {"C07-1": "R-C07.4", "C07-2": "R-C07.6", "C07-3": "R-C07.2"},
-    "C08": {"C08-1": "R-C08.1", "C08-2": "R-C08.4", "C08-3": "R-C08.5", "C09-1": "R-C08.1", "C09-2": "R-C08.1", "C09-3": "R-C08.1", "C10-3": "R-C08.1"},
-    "C09": {"C09-1": "R-C09.5", "C09-2": "R-C09.3", "C09-3": "R-C09.3", "C10-3": "R-C09.2"},
+    "C08": {"C08-1": "R-C08.1", "C08-2": "R-C08.4", "C08-3": "R-C08.5", "C09-1": "R-C08.1", "C09-2": "R-C08.1", "C09-3": "R-C08.1"},
+    # C10-3 (liveness evidence taken from a set iteration) keeps the live *sets* intact: it breaks C10 only, and the C09
+    # check, which used to report it through the shape of apply_bb, is silent on it since apply_bb is decided by evaluation
+    "C09": {"C09-1": "R-C09.7", "C09-2": "R-C09.3", "C09-3": "R-C09.3"},
     "C10": {"C10-1": "R-C10.1", "C10-2": "R-C10.1", "C10-3": "R-C10.1"},
     "C11": {"C11-1": "R-C11.2", "C11-2": "R-C11.5"},
     "C12": {"C12-1": "R-C12.1", "C12-2": "R-C12.5", "C12-3": "R-C12.6"},
